@@ -98,19 +98,18 @@ class ExprMixin:
         if st is None: raise VCError("object == needs a state")
         alts = []
         self.quiet += 1
-        saved = self.pending_raises; self.pending_raises = []
         try:
             for cq, cond in self.classes_of(st, a):
                 m, c = cq.split(":")
                 meth = X.find_method(m, c, "__eq__")
                 if meth is None:
                     alts.append(z3.And(cond, a.t == b.t)); continue
-                s0 = st.fork(); s0.assume(cond)
+                s0 = st.fork(); s0.assume(cond); s0.exc_sink = []
                 base = len(s0.pc)
                 for s1, v in self.call_user(s0, "%s:%s.__eq__" % (meth[0], meth[1]), SV(a.ty, a.t, cls=cq), [b], {}, None):
                     alts.append(z3.And([cond] + s1.pc[base:] + [self.truth(v)]))
         finally:
-            self.quiet -= 1; self.pending_raises = saved
+            self.quiet -= 1
         return z3.Or(alts + [z3.BoolVal(False)])
 
     def eq_types(self, st, a, b):
